@@ -162,7 +162,7 @@ func Render(n *model.Node, rep int, opts []ucfg.Option) interface{} {
 	}
 	switch rep {
 	case RepIfaceMap:
-		if len(n.A) == 0 {
+		if len(n.A) == 0 && !(len(n.D) == 0 && n.Sticky == 2) {
 			m := map[interface{}]interface{}{}
 			for _, k := range n.Keys() {
 				m[k] = Render(n.D[k], rep, opts)
@@ -176,7 +176,7 @@ func Render(n *model.Node, rep int, opts []ucfg.Option) interface{} {
 		}
 		return c
 	case RepStruct:
-		if len(n.A) == 0 {
+		if len(n.A) == 0 && !(len(n.D) == 0 && n.Sticky == 2) {
 			v := reflect.New(abcdStruct).Elem()
 			for _, k := range n.Keys() {
 				f := v.FieldByName(string(rune('A' + (k[0] - 'a'))))
@@ -204,6 +204,9 @@ func Render(n *model.Node, rep int, opts []ucfg.Option) interface{} {
 		}
 		return l
 	}
+	if len(n.A) == 0 && len(n.D) == 0 && n.Sticky == 2 {
+		return []interface{}{} // an empty list is not an empty dictionary
+	}
 	if len(n.A) == 0 {
 		m := map[string]interface{}{}
 		for _, k := range n.Keys() {
@@ -217,7 +220,7 @@ func Render(n *model.Node, rep int, opts []ucfg.Option) interface{} {
 // FitRep adjusts a tree to what a representation can express: a struct always
 // carries all of its fields, so absent names become explicit nil settings.
 func FitRep(n *model.Node, rep int) {
-	if rep == RepStruct && n.K == model.KSub && len(n.A) == 0 {
+	if rep == RepStruct && n.K == model.KSub && len(n.A) == 0 && !(len(n.D) == 0 && n.Sticky == 2) {
 		for _, k := range Names {
 			if _, ok := n.D[k]; !ok {
 				n.SetD(k, model.Nil())
